@@ -88,12 +88,19 @@ fn legacy_0_4_20(cur: &Value, send_fees: bool, treasury_fallback: &str) -> Value
         "send_fees_to_treasury": send_fees,
     })
 }
-fn legacy_0_4_18(v20: &Value, ops: bool) -> Value {
+/// `variant` (3 bits) decides independently which of the three oracle fields of the 0.4.18 layout are populated:
+/// bit 0 the retained `oracle_address`, bit 1 / bit 2 the deprecated `oracle_contract_address` / `_v2` (dropped by the path)
+fn legacy_0_4_18(v20: &Value, ops: bool, variant: u64, dep1: &str, dep2: &str) -> Value {
     let mut o = v20.as_object().cloned().unwrap();
     o.remove("send_fees_to_treasury");
     o.insert("operators".into(), if ops { json!([v20["multisig_address_config"]["staker_address"]]) } else { Value::Null });
-    o.insert("oracle_contract_address".into(), Value::Null);
-    o.insert("oracle_contract_address_v2".into(), v20["oracle_address"].clone());
+    if variant & 1 == 0 {
+        o.insert("oracle_address".into(), Value::Null);
+    } else if o["oracle_address"].is_null() {
+        o.insert("oracle_address".into(), json!(dep1));
+    }
+    o.insert("oracle_contract_address".into(), if variant & 2 != 0 { json!(dep1) } else { Value::Null });
+    o.insert("oracle_contract_address_v2".into(), if variant & 4 != 0 { json!(dep2) } else { Value::Null });
     Value::Object(o)
 }
 
@@ -166,12 +173,16 @@ pub fn records(seed: u64, nhist: u64) -> Vec<Value> {
                     if k > 0 && !(name == "staking" || ver == "1.0.0") {
                         continue; // the full matrix once, the interesting rows on every history
                     }
+                  // the eight populations of the three oracle fields on the row that migrates; one of them elsewhere
+                  let variants: Vec<u64> = if path == "v0_4_18_to_v0_4_20" && ver == "0.4.18" && name == "staking" { (0..8).collect() } else { vec![(k + 5) % 8] };
+                  for variant in variants {
                     let mut w = base.w.clone();
                     let treasury_fb = w.names.ad("treasury");
                     let v20 = legacy_0_4_20(&cur, k % 2 == 0, &treasury_fb);
                     let msg = match path {
                         "v0_4_18_to_v0_4_20" => {
-                            w.store.m.insert(b"config".to_vec(), legacy_0_4_18(&v20, k % 2 == 1).to_string().into_bytes());
+                            let (d1, d2) = (w.names.ad("oracle2"), w.names.ad("c1"));
+                            w.store.m.insert(b"config".to_vec(), legacy_0_4_18(&v20, k % 2 == 1, variant, &d1, &d2).to_string().into_bytes());
                             json!({"v0_4_18_to_v0_4_20": {"send_fees_to_treasury": k % 2 == 0}})
                         }
                         "v0_4_20_to_v1_0_0" => {
@@ -192,6 +203,7 @@ pub fn records(seed: u64, nhist: u64) -> Vec<Value> {
                     out.push(json!({"kind": "gate", "path": path, "name": name, "version": ver, "ok": o.ok, "panic": o.panic,
                         "unchanged": w.store == snap, "post_name": pn, "post_version": pv,
                         "pre": pre_flat, "post": flat(&raw_cfg(&w)), "send_fees": k % 2 == 0, "nmsgs": o.msgs.len()}));
+                  }
                 }
             }
         }
